@@ -12,16 +12,19 @@ def served (running : List (Nat × Nat)) (k : Nat) : List Nat :=
 
 structure Inv (c : Cfg ρ β) (s : State β) : Prop where
   /-- no file is lost or duplicated -/
-  perm : (s.pending ++ s.running.map Prod.fst ++ s.done).Perm c.files
+  perm : (s.pending ++ s.running.map Prod.fst ++ s.done).Perm s.all
   /-- handler `k` has been served by the completed files and by the running files whose counter passed `k` -/
   apps : ∀ k, k < c.nh → (s.apps k).Perm (s.done ++ served s.running k)
   /-- every handler list is the image of the files appended to it -/
   outs : ∀ k, s.outs k = (s.apps k).map (fun f => c.handle k (c.lint f))
   count : s.count = s.done.countP (fun f => c.ok (c.lint f))
 
-theorem inv_init (c : Cfg ρ β) : Inv c (init c) := by
+theorem inv_init (c : Cfg ρ β) : Inv c (init : State β) := by
   refine ⟨by simp [init], ?_, by simp [init], by simp [init]⟩
   intro k _; simp [init, served]
+
+theorem final_lists {s : State β} (hf : isFinal s = true) : s.pending = [] ∧ s.running = [] := by
+  simpa [isFinal] using hf
 
 theorem served_erase (R : List (Nat × Nat)) (a : Nat × Nat) (ha : a ∈ R) (k : Nat) :
     (served R k).Perm ((if k < a.2 then [a.1] else []) ++ served (R.erase a) k) := by
@@ -42,6 +45,20 @@ theorem fst_erase_perm (R : List (Nat × Nat)) (a : Nat × Nat) (ha : a ∈ R) :
 theorem inv_step (c : Cfg ρ β) {s s' : State β} {e : Ev} (hi : Inv c s)
     (h : step c s e = some s') : Inv c s' := by
   cases e with
+  | call files w =>
+    simp only [step] at h
+    split at h
+    · rename_i hf
+      obtain ⟨h1, h2⟩ := final_lists hf
+      simp only [Option.some.injEq] at h
+      subst h
+      refine ⟨?_, hi.apps, hi.outs, hi.count⟩
+      have hd : s.done.Perm s.all := by simpa [h1, h2] using hi.perm
+      show (files ++ s.running.map Prod.fst ++ s.done).Perm (s.all ++ files)
+      rw [h2]
+      simp only [List.map_nil, List.append_nil]
+      exact List.perm_append_comm.trans (hd.append_right _)
+    · cases h
   | start i =>
     simp only [step] at h
     split at h
